@@ -2,7 +2,7 @@ CONSTANTS
   SegsA = 2
   SegsB = 2
   Fam = "uri"
-  Mode = "main"
+  Mode = "pct"
 INIT Init
 NEXT Next
 INVARIANT Satisfiable
